@@ -126,6 +126,29 @@ func runOne(id string, pc *propCheck, wp **World, root, verif, tier string, seed
 		} else if why != "" {
 			fmt.Printf("NOTE wrapper type(s) %v present but not flattened: %s\n", names, why)
 		}
+		// Build's pipeline split into two functions: the tail call is inlined in a scratch copy
+		func() {
+			defer func() {
+				if e := recover(); e != nil {
+					_ = e // roles could not be resolved: the rules will say so themselves
+				}
+			}()
+			theWorld = *wp
+			resetCaches()
+			if dir, name, why := inlineBuildTail(*wp); dir != "" {
+				note := fmt.Sprintf("analysed after inlining the tail call of the build pipeline to %s (scratch copy, type-checked again)", name)
+				fmt.Println("NOTE " + note)
+				if flattened != "" {
+					flattened += "; "
+				}
+				flattened += note
+				theWorld = nil
+				*wp = Load(dir)
+			} else if why != "" {
+				fmt.Printf("NOTE the build pipeline is split (%s) but the tail call was not inlined: %s\n", name, why)
+			}
+			resetCaches()
+		}()
 	}
 	w := *wp
 	resetCaches()
